@@ -284,13 +284,18 @@ def coq_make(targets, timeout=3000, jobs=None):
     return res
 
 
-def coq_gate():
-    """The no-axiom / no-admit gate over the whole development (comments stripped)."""
+def coq_gate(files=None):
+    """The no-axiom / no-admit gate (comments stripped) over the given .v files (paths relative to
+    coq/), default the whole development."""
     bad = []
     pat = re.compile(r'\b(Admitted|admit|Axiom|Axioms|Parameter|Parameters|Conjecture|Conjectures|Admit Obligations|'
                      r'Unset Guard Checking|Unset Positivity Checking|Unset Universe Checking|bypass_check|'
                      r'type-in-type|impredicative-set)\b')
-    for v in glob.glob(os.path.join(COQDIR, '**', '*.v'), recursive=True):
+    allv = glob.glob(os.path.join(COQDIR, '**', '*.v'), recursive=True) if files is None else [
+        os.path.join(COQDIR, f) for f in files]
+    for v in allv:
+        if not os.path.exists(v):
+            continue
         txt = strip_coq_comments(open(v, errors='replace').read())
         stack = []
         for i, line in enumerate(txt.split('\n'), 1):
@@ -373,7 +378,8 @@ def coq_prove(prop_file, timeout=3000):
     r = coq_make([prop_file + '.vo'], timeout=timeout)
     ok, log = r[prop_file + '.vo']
     closed, axioms = parse_assumptions(log)
-    gate = coq_gate()
+    closure = sorted(coq_deps([prop_file + '.v']).keys())  # the property file and everything it depends on
+    gate = coq_gate(closure)
     discharged = len(thms) if ok else 0
     if gate:
         ok = False
